@@ -1,7 +1,7 @@
 (* Linear algebra over lists for a field whose addition is xor on N and whose
    multiplication is a parameter satisfying the field laws on {x | x < B}. *)
 From Coq Require Import Lia.
-From Gopar Require Import Model.Base Model.Matrix.
+From Gopar Require Import Model.Base Model.Matrix Model.RS16.
 Open Scope N_scope.
 Set Default Timeout 120.
 
@@ -954,5 +954,71 @@ Section LinAlg.
         symmetry. apply (mmul_identity_r r r). exact HM.
     - apply S.
     - exact S.
+  Qed.
+
+  (** ** block decompositions of a linear combination *)
+  Lemma lincomb_app c : forall a X b Y k2, length a = length X -> wfv k2 b -> wfm k2 c Y ->
+    lincomb c (a ++ b) (X ++ Y) = vadd (lincomb c a X) (lincomb c b Y).
+  Proof.
+    induction a as [|x a IH]; intros X b Y k2 Hl Hb HY.
+    - destruct X; [|discriminate]. cbn [app Matrix.lincomb].
+      destruct (lincomb_wf c k2 b Y Hb HY) as [L _].
+      pose proof (vadd_zeros_l (lincomb c b Y)) as E. rewrite L in E. symmetry. exact E.
+    - destruct X as [|x0 X]; [discriminate|]. cbn [app Matrix.lincomb].
+      rewrite (IH X b Y k2) by (try assumption; cbn in Hl; lia). symmetry. apply vadd_assoc.
+  Qed.
+
+  Lemma pick_some_wfv {A} k : forall (mask : list (option A)) v, length mask = k -> wfv k v ->
+    wfv (length (somes mask)) (pick_some mask v).
+  Proof.
+    induction k as [|k IH]; intros mask v Hm Hv.
+    - destruct mask; [|discriminate]. apply wfv_nil.
+    - destruct mask as [|o mask]; [discriminate|]. destruct v as [|x v]; [destruct Hv; discriminate|].
+      apply wfv_inv in Hv. destruct Hv as [Hx Hv]. cbn in Hm.
+      destruct o; cbn; [apply wfv_cons; [exact Hx|]|]; apply IH; (lia || assumption).
+  Qed.
+  Lemma pick_none_wfv {A} k : forall (mask : list (option A)) v, length mask = k -> wfv k v ->
+    wfv (count_none mask) (pick_none mask v).
+  Proof.
+    induction k as [|k IH]; intros mask v Hm Hv.
+    - destruct mask; [|discriminate]. apply wfv_nil.
+    - destruct mask as [|o mask]; [discriminate|]. destruct v as [|x v]; [destruct Hv; discriminate|].
+      apply wfv_inv in Hv. destruct Hv as [Hx Hv]. cbn in Hm.
+      destruct o; cbn; [|apply wfv_cons; [exact Hx|]]; apply IH; (lia || assumption).
+  Qed.
+  Lemma pick_some_wfm {A} k c : forall (mask : list (option A)) D, length mask = k -> wfm k c D ->
+    wfm (length (somes mask)) c (pick_some mask D).
+  Proof.
+    induction k as [|k IH]; intros mask D Hm HD.
+    - destruct mask; [|discriminate]. apply wfm_nil.
+    - destruct mask as [|o mask]; [discriminate|]. destruct D as [|x D]; [destruct HD; discriminate|].
+      apply wfm_inv in HD. destruct HD as [Hx HD]. cbn in Hm.
+      destruct o; cbn; [apply wfm_cons; [exact Hx|]|]; apply IH; (lia || assumption).
+  Qed.
+  Lemma pick_none_wfm {A} k c : forall (mask : list (option A)) D, length mask = k -> wfm k c D ->
+    wfm (count_none mask) c (pick_none mask D).
+  Proof.
+    induction k as [|k IH]; intros mask D Hm HD.
+    - destruct mask; [|discriminate]. apply wfm_nil.
+    - destruct mask as [|o mask]; [discriminate|]. destruct D as [|x D]; [destruct HD; discriminate|].
+      apply wfm_inv in HD. destruct HD as [Hx HD]. cbn in Hm.
+      destruct o; cbn; [|apply wfm_cons; [exact Hx|]]; apply IH; (lia || assumption).
+  Qed.
+
+  Lemma lincomb_split {A} c k : forall (mask : list (option A)) r D, length mask = k -> wfv k r -> wfm k c D ->
+    lincomb c r D = vadd (lincomb c (pick_some mask r) (pick_some mask D))
+                         (lincomb c (pick_none mask r) (pick_none mask D)).
+  Proof.
+    induction k as [|k IH]; intros mask r D Hm Hr HD.
+    - destruct mask; [|discriminate]. rewrite (wfv_0 r Hr). cbn.
+      pose proof (vadd_self (zeros c)) as E.
+      replace (length (zeros c)) with c in E by (symmetry; apply repeat_length). symmetry. exact E.
+    - destruct mask as [|o mask]; [discriminate|]. destruct r as [|a r]; [destruct Hr; discriminate|].
+      destruct D as [|x D]; [destruct HD; discriminate|].
+      apply wfv_inv in Hr. apply wfm_inv in HD. destruct Hr as [Ha Hr]. destruct HD as [Hx HD]. cbn in Hm.
+      cbn [Matrix.lincomb]. rewrite (IH mask r D) by (try assumption; lia).
+      destruct o; cbn [pick_some pick_none Matrix.lincomb].
+      + symmetry. apply vadd_assoc.
+      + rewrite <- !vadd_assoc. f_equal. apply vadd_comm.
   Qed.
 End LinAlg.
